@@ -84,10 +84,14 @@ class Probe:
             env["PROBE_STACK_MB"] = str(self.stack_mb)
         env["RUST_BACKTRACE"] = "0"
         out = open(diag, "a")
+        # stderr is kept so that a death can be told apart: stack overflow vs failed allocation
+        self.stderr_path = os.path.join(self.scratch, "stderr-%d.txt" % self.incarnation)
+        err = open(self.stderr_path, "wb")
         self.proc = subprocess.Popen([self.binary, str(w), diag], stdin=subprocess.PIPE,
-                                     stdout=out, stderr=subprocess.DEVNULL, pass_fds=[w],
+                                     stdout=out, stderr=err, pass_fds=[w],
                                      env=env, preexec_fn=_limits(self.as_bytes))
         out.close()
+        err.close()
         os.close(w)
         self.rfd = r
         self.buf = b""
@@ -146,7 +150,7 @@ class Probe:
             self.proc.stdin.flush()
         except (BrokenPipeError, OSError):
             code = self._death()
-            return {"died": code}
+            return {"died": code, "stderr": self.last_stderr}
         line = self._readline(time.time() + timeout)
         if line is None:
             self.restarts += 1
@@ -154,7 +158,7 @@ class Probe:
             return {"timeout": True}
         if line == b"":
             code = self._death()
-            return {"died": code}
+            return {"died": code, "stderr": self.last_stderr}
         try:
             return json.loads(line)
         except Exception as e:  # protocol corruption is a harness problem
@@ -168,6 +172,12 @@ class Probe:
             pass
         self.restarts += 1
         self.close_proc()
+        self.last_stderr = ""
+        try:
+            with open(getattr(self, "stderr_path", ""), "rb") as f:
+                self.last_stderr = f.read()[-600:].decode("utf-8", "replace")
+        except OSError:
+            pass
         return code
 
     def ctx(self, kind="bundled", **kw):
